@@ -20,6 +20,17 @@ RESULTS = {
     "C02-tombstone-map-merge-flag-lost": ("C02", [("C02", "thorough", "VIOLATION", "kani vk_lat coll3::tombstone_map_merge clause C02:changed_iff_value_differs")]),
     "C03-optionset-is-empty-inverted": ("C03", [("C03", "quick", "VIOLATION", "kani vk_lat coll::set_bot_every_representation clause C03:set_union_is_bot_iff_empty")]),
     "C04-dompair-incomparable-keys-value-not-merged": ("C04", [("C04", "quick", "VIOLATION", "kani vk_lat twins::dompair_incomparable_keys clause C04:dompair_incomparable_keys_merges_values")]),
+    "C05-fst-tombstone-extend-drops-overlapping-batch": ("C05", [("C05", "thorough", "missed", "the change is inside tombstone.rs's FstTombstoneSet adapter (fst crate), which the C05 claim names as NOT covered: the checks run the merge algorithm on harness sets")]),
+    "C07-ght-keyed-bimorphism-first-match-only": ("C07", [("C07", "thorough", "missed", "the change is in ght/lattice.rs (GhtNodeKeyedBimorphism); GHT is outside both verifiers' reach (C08 N/A) and the C07 claim lists the ght bimorphisms as NOT covered")]),
+    "C01-withtop-merge-collapses-inner-top": ("C01", [("C01", "quick", "VIOLATION", "verus lat_wrap `impl Merge<WithTop<Other>> for WithTop<Inner>::merge` clause final(self).abs() == old(self).abs().join(other.abs()); kani vk_lat twins withtop_max/withtop_min/withtop_withbot/withbot_withtop/pair_bt ::aci clauses C01:commutative, C01:associative (11 violations)")]),
+    "C01-tombstone-set-lattice-from-swapped": ("C01", [("C01", "quick", "missed", "no harness called SetUnionWithTombstones::lattice_from and the quick C01 twins do not nest the tombstone set under a container"),
+                                                        ("C04", "quick", "missed", "first run: same reason; the harness coll3::tombstone_set_lattice_from was added because of this seed"),
+                                                        ("C04", "quick", "VIOLATION", "kani vk_lat coll3::tombstone_set_lattice_from clause C04:tombstone_set_lattice_from_keeps_live_items")]),
+    "C10-column-multiset-drain-yields-nothing": ("C10", [("C10", "quick", "VIOLATION", "kani vk_var harness::column_multiset_drain_reuse")]),
+    "C06-map-union-atomize-one-atom-per-entry": ("C06", [("C06", "thorough", "UNDECIDED", "first run: the whole-value atomize harnesses timed out (they were later removed from every tier)"),
+                                                       ("C06", "quick", "VIOLATION", "kani vk_lat coll3::atomize_map_union_any_value_iterator (added because of this seed) clauses C06:map_union_atoms_are_exactly_key_times_value_atoms, C06:map_union_yields_every_value_atom_under_its_key")]),
+    "C36-merge-ordered-hook-fast-path-swapped": ("C36", [("C36", "quick", "VIOLATION", "kani vk_sim sim::runtime::harness::merge_ordered_inline_0_2 clause C36:decision_conserves_item_count (replayed natively)")]),
+    "C36-run-hooks-trivial-decision-overwrites-manual": ("C36", [("C36", "quick", "VIOLATION", "kani vk_sim sim::compiled::harness::run_hooks_n1/n2/n3 clause C36:run_hooks_decides_each_undecided_hook_once")]),
     "C10-counted-hash-set-eq-ignores-counts": ("C10", [("C10", "quick", "missed", "VariadicCountedHashSet is hashbrown-backed: outside CBMC's reach, documented as not covered (DESIGN.md section 5, C10)")]),
 }
 EXTRA = '/verif/seeded/results_extra.json'
